@@ -166,6 +166,8 @@ def rewrite_case(rng, case):
     return c, moves, prefix
 
 
+from .c13 import DataDirs      # the data directory is the first component of every location, whichever chain is built first
+
 class Rewrites(Suite):
     """(configuration, computation-preserving rewriting): corresponding tasks keep their location"""
     name = 'rewritings'
@@ -790,7 +792,7 @@ class SameNamedClasses(Suite):
 
 class C02(Prop):
     pid = 'C02'
-    suites = [Rewrites(), Registry(), ObjectArgOrder(), HashSeeds(), PathDefaults(), IgnoredValues(), ValueSources(), SameNamedClasses()]
+    suites = [Rewrites(), Registry(), ObjectArgOrder(), HashSeeds(), PathDefaults(), IgnoredValues(), ValueSources(), SameNamedClasses(), DataDirs()]
     known_classes = {'object-argument-order': object_order_class, 'object-argument-order-registry': object_arg_order_class,
                      'hash-seed-set-attribute': hash_seed_class, 'placeholder-equals-default': placeholder_default_class,
                      'path-default-repr': path_default_class, 'quoted-placeholder-text': quoted_placeholder_class}
